@@ -23,7 +23,7 @@ def corrupt_bystander(world, st):
     a = world.all_assets()[0]
     sem = st.op.get("sem", {})
     rcv = sem.get("to") or sem.get("receiver")
-    by = "by1" if rcv == "by2" else "by2"
+    by = "by1" if "by2" in (rcv, st.op["actor"]) else "by2"
     st.post.bal[(by, a[1])] -= 1
     st.post.bal[(st.op["actor"], a[1])] += 1
     return st
